@@ -375,6 +375,29 @@ def make_controls(pid):
     return ctl
 
 
+def impl_level(traces):
+    """Impl-level trace validation (BuilderImplTrace): every call of the dp=0 exact traces against BuilderImpl's own
+    operators. Returns (calls compared, mismatches)."""
+    sel = [t for t in traces if t["meta"].get("dp") == 0 and t["meta"].get("exact")]
+    if not sel:
+        return 0, []
+    path = os.path.join(workdir(), "impl_level_%d.json" % (int(time.time() * 1000) % 100000))
+    write_json(path, sel)
+    defs = {"cE": "{}", "cB": "{}"}
+    root = tlc.wrapper("MCBuilderImplTrace", "BuilderImplTrace", defs)
+    cfg = "\n".join(["SPECIFICATION SpecT", "CONSTANTS", " Acts <- cE", " AxUsed <- cE", " Coords <- cE", " Deltas <- cE", " Vals <- cE",
+                     " MaxCtx = 0", " BoxSet <- cB", " RangeSet <- cB", " BoundNames <- cE"]) + "\n"
+    d = tlc._fresh("implval")
+    cfgp, spec = tlc._root(d, "MCBuilderImplTrace", cfg, root)
+    r = tlc._run(["-workers", "1", "-metadir", os.path.join(d, "meta"), "-noGenerateSpecTE", "-deadlock", "-config", cfgp, spec],
+                 {"TRACE_FILE": path}, "3g", 900, d)
+    if r.errors or r.rc != 0:
+        raise MachineryError("BuilderImplTrace failed: %s\n%s" % (r.errors[:2], r.stdout[-2000:]))
+    compared = sum(t[2] for t in r.tuples if t and t[0] == "C")
+    mism = [[t[1], t[2], t[3], t[4]] for t in r.tuples if t and t[0] == "X"]
+    return compared, mism
+
+
 # ------------------------------------------------------------------ validation
 def brief_event(e):
     return {"call": e["call"], "out": e["out"],
@@ -482,6 +505,13 @@ def run(pid, tier, replay_path=None):
             traces.append(tr)
             descs.append(ds)
     nreal = len(traces)
+    if not replay_path:
+        compared, mism = impl_level(traces)
+        cov["impl_level_calls_compared_with_BuilderImpl"] = compared
+        cov["impl_level_mismatches"] = len(mism)
+        cov["impl_level_mismatch_samples"] = mism[:5]
+        if mism:
+            say("NOTE drift: %d of %d recorded calls differ from what BuilderImpl computes (first: %s)" % (len(mism), compared, mism[0]))
     controls = [] if replay_path else make_controls(pid)
     failures, done, results = validate_traces(traces + controls)
 
